@@ -239,7 +239,7 @@ def literals(e, pos=True, kind='cond'):
         return [Lit(E('>=', e.args, w=1), not pos, kind)]
     if e.op == 'call' and e.args[0] == 'bool' and len(e.args) == 2 and isinstance(e.args[1], E):
         return literals(e.args[1], pos, kind) if _is_bool(e.args[1]) else [Lit(e, pos, kind)]
-    if kind == 'cond' and e.op in ('sig', 'slice', 'param') and isinstance(e.w, int) and e.w > 1:
+    if kind == 'cond' and e.op in ('sig', 'slice', 'param', 'arr') and isinstance(e.w, int) and e.w > 1:
         # `with m.If(wide)` tests wide != 0: the same literal as `wide != 0`, `wide.any()` and `wide.bool()`
         return [Lit(E('==', (E('const', val=0), e), w=1), not pos, kind)]
     return [Lit(e, pos, kind)]
